@@ -36,7 +36,23 @@ type typeAlloc struct {
 }
 
 func (g *Gen) newAlloc() *typeAlloc {
-	return &typeAlloc{free: g.R.Perm(ps.NumTypes)}
+	free := g.R.Perm(ps.NumTypes)
+	if g.chance(30) {
+		// the interface type 7 and its implementation 20 early, in this order: a pair of distinct
+		// flow types of which the second is assignable to the first
+		var rest []int
+		for _, x := range free {
+			if x != 7 && x != 20 {
+				rest = append(rest, x)
+			}
+		}
+		k := g.R.Intn(2)
+		if k > len(rest) {
+			k = len(rest)
+		}
+		free = append(append(append([]int{}, rest[:k]...), 7, 20), rest[k:]...)
+	}
+	return &typeAlloc{free: free}
 }
 
 func (a *typeAlloc) next() (int, bool) {
@@ -83,6 +99,14 @@ func (g *Gen) WellFormedFlow(pid int) *ps.Program {
 			t.Ins = append(t.Ins, x)
 			consumed[x] = true
 		}
+		if len(t.Ins) >= 1 && g.chance(12) {
+			// the same type twice, followed by the others: [A, A, B, …]
+			t.Ins = append([]int{t.Ins[0]}, t.Ins...)
+		}
+		if contains(avail, 7) && contains(avail, 20) && g.chance(35) {
+			t.Ins = []int{7, 7, 20}
+			consumed[7], consumed[20] = true, true
+		}
 		// predicate
 		if !g.plain && g.chance(28) {
 			t.Pred = true
@@ -98,6 +122,9 @@ func (g *Gen) WellFormedFlow(pid int) *ps.Program {
 				}
 				t.PIns = append(t.PIns, x)
 				consumed[x] = true
+			}
+			if len(t.PIns) >= 1 && g.chance(12) {
+				t.PIns = append([]int{t.PIns[0]}, t.PIns...)
 			}
 		}
 		// outputs
@@ -403,6 +430,8 @@ var MutKinds = []string{
 	"cycle", "cycle-pred", "cycle-self", "cycle-unreachable",
 	"unused-param", "unused-output", "strip-invoke", "invoke-with-outputs",
 	"fallback-no-error", "instr-no-emitter", "invoke-nonconst", "dup-params-two-options",
+	// unsupported signatures: type-correct Go that cff must refuse
+	"sig-prednamedbool", "sig-pred2", "sig-predvariadic", "sig-fbarity",
 }
 
 func (g *Gen) freshType(p *ps.Program) (int, bool) {
@@ -619,6 +648,37 @@ func (g *Gen) Mutate(p *ps.Program, kind string) bool {
 			return false
 		}
 		pickT(ts).FB = true
+	case "sig-prednamedbool", "sig-pred2", "sig-predvariadic":
+		// The predicate of one task returns a defined boolean type / two results / is variadic.
+		ts := tasksWith(func(t *ps.Task) bool { return t.Pred })
+		var t *ps.Task
+		if len(ts) == 0 {
+			if len(p.Tasks) == 0 {
+				return false
+			}
+			t = p.Tasks[g.R.Intn(len(p.Tasks))]
+			t.Pred = true
+		} else {
+			t = pickT(ts)
+		}
+		if kind == "sig-predvariadic" {
+			t.PIns = nil
+		}
+		p.Quirk = kind
+		p.QuirkK = t.K
+	case "sig-fbarity":
+		// cff.FallbackWith with one value too many.
+		ts := tasksWith(func(t *ps.Task) bool { return t.FB && len(t.Outs) > 0 })
+		if len(ts) == 0 {
+			ts = tasksWith(func(t *ps.Task) bool { return t.Err && len(t.Outs) > 0 })
+			if len(ts) == 0 {
+				return false
+			}
+		}
+		t := pickT(ts)
+		t.FB = true
+		p.Quirk = kind
+		p.QuirkK = t.K
 	case "invoke-nonconst":
 		// cff.Invoke(h.True()): the argument must be a constant.
 		if len(tasksWith(func(t *ps.Task) bool { return t.Invoke })) == 0 {
